@@ -7,6 +7,8 @@ import (
 	"fmt"
 	"io"
 	"os"
+
+	"github.com/klev-dev/klevdb/pkg/vhook"
 )
 
 var (
@@ -112,6 +114,7 @@ func OpenWriter(path string, offset int64, newVersion Version, opts Params) (w *
 	pos := stat.Size()
 	var v Version
 	if pos == 0 {
+		vhook.FSEvent("create", path, "", 0, 0)
 		h, err := newVersion.newHeader(opts)
 		if err != nil {
 			return nil, fmt.Errorf("write index header: %w", err)
@@ -119,6 +122,7 @@ func OpenWriter(path string, offset int64, newVersion Version, opts Params) (w *
 		if _, err := f.Write(h[:]); err != nil {
 			return nil, fmt.Errorf("write index header: %w", err)
 		}
+		vhook.FSEvent("write", path, "", 0, int64(len(h)))
 		pos = int64(len(h))
 		v = newVersion
 	} else {
@@ -171,6 +175,7 @@ func (w *Writer) writeBase(it Item) error {
 	} else {
 		w.pos += int64(n)
 	}
+	vhook.FSEvent("write", w.f.Name(), "", w.pos-int64(len(w.buff)), int64(len(w.buff)))
 
 	return nil
 }
@@ -185,6 +190,7 @@ func (w *Writer) writeTimes(it Item) error {
 	} else {
 		w.pos += int64(n)
 	}
+	vhook.FSEvent("write", w.f.Name(), "", w.pos-int64(len(w.buff)), int64(len(w.buff)))
 
 	return nil
 }
@@ -199,6 +205,7 @@ func (w *Writer) writeKeys(it Item) error {
 	} else {
 		w.pos += int64(n)
 	}
+	vhook.FSEvent("write", w.f.Name(), "", w.pos-int64(len(w.buff)), int64(len(w.buff)))
 
 	return nil
 }
@@ -214,6 +221,7 @@ func (w *Writer) writeFull(it Item) error {
 	} else {
 		w.pos += int64(n)
 	}
+	vhook.FSEvent("write", w.f.Name(), "", w.pos-int64(len(w.buff)), int64(len(w.buff)))
 
 	return nil
 }
@@ -226,6 +234,7 @@ func (w *Writer) Sync() error {
 	if err := w.f.Sync(); err != nil {
 		return fmt.Errorf("write index sync: %w", err)
 	}
+	vhook.FSEvent("fsync", w.f.Name(), "", 0, 0)
 	return nil
 }
 
